@@ -58,3 +58,13 @@ Qed.
 
 Lemma ex_prog2_rows : rows_ok ex_prog2 [[1]; [2]; [3]]%Z.
 Proof. repeat constructor. Qed.
+
+Lemma ex_prog_segments :
+  run_segments VmD ex_prog (compiled ex_prog) 0%Z [[[]; []]; [[]]; [[]]] (init_state VmD (compiled ex_prog))
+  = Some [Some [0; 48000]; Some [2; 48000]; Some [5; 48000]; Some [8; 48000]]%Z.
+Proof. vm_compute. reflexivity. Qed.
+
+Lemma ex_prog_final_state :
+  option_map m_words (final_state VmD ex_prog (compiled ex_prog) 0%Z [[]; []] m0)
+  = Some [2; 2; 2; 2; 1; 2; 0]%Z.
+Proof. vm_compute. reflexivity. Qed.
